@@ -96,6 +96,65 @@ theorem refsAt_of_docAt {inp : Input} {d : Option Url} {f : File} (h : docAt inp
     refsAt inp d = f.refs := by
   unfold refsAt; rw [h]
 
+/-! ### the caching reader keeps the spec -/
+
+theorem cacheFilter_sub (inp : Input) : ∀ (log cached : List Url), ∀ u ∈ cacheFilter inp cached log, u ∈ log
+  | [], _, u, h => by simp [cacheFilter] at h
+  | v :: rest, cached, u, h => by
+    unfold cacheFilter at h
+    split at h
+    · exact List.mem_cons_of_mem _ (cacheFilter_sub inp rest cached u h)
+    · rcases List.mem_cons.mp h with e | e
+      · subst e; exact List.mem_cons_self
+      · exact List.mem_cons_of_mem _ (cacheFilter_sub inp rest _ u e)
+
+/-- the justification of every read survives the cache: a read that is served from the cache was kept once before -/
+theorem cacheFilter_just (inp : Input) : ∀ (log cached pre pre' : List Url),
+    (∀ c ∈ cached, c ∈ pre') → (∀ x ∈ pre, x ∈ pre') →
+    (∀ s u t, log = s ++ u :: t → Justified inp (pre ++ s) u) →
+    ∀ s u t, cacheFilter inp cached log = s ++ u :: t → Justified inp (pre' ++ s) u
+  | [], _, _, _, _, _, _, s, u, t, h => by
+    simp only [cacheFilter] at h
+    cases s <;> simp at h
+  | v :: rest, cached, pre, pre', hc, hp, hj, s, u, t, h => by
+    unfold cacheFilter at h
+    have hrest : ∀ s u t, rest = s ++ u :: t → Justified inp ((pre ++ [v]) ++ s) u := by
+      intro s u t e
+      have := hj (v :: s) u t (by simp [e])
+      simpa using this
+    split at h
+    · next hv =>
+      -- served from the cache
+      refine cacheFilter_just inp rest cached (pre ++ [v]) pre' hc ?_ hrest s u t h
+      intro x hx
+      rcases List.mem_append.mp hx with e | e
+      · exact hp x e
+      · simp at e; subst e; exact hc _ hv
+    · cases s with
+      | nil =>
+        simp only [List.nil_append, List.cons.injEq] at h
+        obtain ⟨e1, _⟩ := h
+        subst e1
+        have := hj [] v rest rfl
+        simp only [List.append_nil] at this ⊢
+        exact this.mono hp
+      | cons w s' =>
+        simp only [List.cons_append, List.cons.injEq] at h
+        obtain ⟨e1, e2⟩ := h
+        subst e1
+        have := cacheFilter_just inp rest _ (pre ++ [v]) (pre' ++ [v]) ?_ ?_ hrest s' u t e2
+        · simpa using this
+        · intro c hc'
+          split at hc'
+          · rcases List.mem_cons.mp hc' with e | e
+            · subst e; simp
+            · exact List.mem_append_left _ (hc c e)
+          · exact List.mem_append_left _ (hc c hc')
+        · intro x hx
+          rcases List.mem_append.mp hx with e | e
+          · exact List.mem_append_left _ (hp x e)
+          · exact List.mem_append_right _ e
+
 /-! ### elements and values that belong to a document -/
 
 def NodeIn (inp : Input) (d : Option Url) (n : Node) : Prop := ∀ r ∈ n.refs, r ∈ refsAt inp d
